@@ -43,7 +43,7 @@ func genC34(t *rapid.T) RaceCase {
 	var c RaceCase
 	c.FailMod = rapid.SampledFrom([]int{0, 2, 3, 1}).Draw(t, "failMod")
 	n := rapid.IntRange(3, 8).Draw(t, "nCalls")
-	kinds := []string{"create", "create", "remove", "dissociate", "realloc", "control", "send", "status", "list", "rpc-create", "rpc-list", "rpc-remove", "rpc-status", "capacity", "podresource"}
+	kinds := []string{"create", "create", "remove", "dissociate", "realloc", "control", "send", "status", "list", "rpc-create", "rpc-list", "rpc-remove", "rpc-status", "capacity", "podresource", "runandwait"}
 	for i := 0; i < n; i++ {
 		call := RaceCall{Kind: rapid.SampledFrom(kinds).Draw(t, "kind")}
 		call.Targets = genTargets(t, 4)
@@ -208,6 +208,14 @@ func runC34(x *vt.Ctx, c RaceCase) *vt.Finding {
 			case "list":
 				_, _ = w.Cal.ListWorkloads(ctx, &types.ListWorkloadsOptions{Appname: "a", Entrypoint: "web"})
 				if ch, err := w.Cal.ListPodNodes(ctx, &types.ListNodesOptions{Podname: "p0", All: true}); err == nil {
+					for range ch {
+					}
+				}
+			case "runandwait":
+				d := world.DeploySpec{App: "l", Entry: "job", Pod: "p0", Strategy: "AUTO", Count: 4, Res: world.ResSpec{CPU: 0.1, Mem: 16 * MiB}}
+				in := make(chan []byte)
+				close(in)
+				if _, ch, err := w.Cal.RunAndWait(ctx, d.Options(), in); err == nil {
 					for range ch {
 					}
 				}
